@@ -70,17 +70,66 @@ impl WCfg {
         )
     }
     pub fn builder(&self) -> WriterBuilder {
+        // The setters are independent and "last call wins": for two thirds of the configurations
+        // (chosen by a hash of the configuration) they are called in a shuffled order, and in one
+        // third each is first called with a decoy value, so that order- or history-dependent
+        // builders show.
+        let h = crate::prng::hash_bytes(0xB1D, self.render().as_bytes());
+        let mut steps: Vec<u8> = (0..5).collect();
+        let mut rng = Rng::new(h);
+        if h % 3 != 0 {
+            rng.shuffle(&mut steps);
+        }
+        let decoy = h % 3 == 1;
         let mut b = Writer::builder();
-        b.compression_type(self.codec);
-        b.compression_level(self.level);
-        if let Some(bs) = self.block_size {
-            b.block_size(bs);
+        if decoy {
+            b.compression_type(*rng.pick(&codecs()));
+            b.compression_level(7);
+            b.block_size(*rng.pick(&[0usize, 16, 3000, 65536, 1 << 20]));
+            b.index_key_interval(NonZeroUsize::new(*rng.pick(&[1usize, 5, 100])).unwrap());
+            b.index_levels(*rng.pick(&[0u8, 1, 4]));
+            // a configuration that leaves a setting at its default cannot undo a decoy: only
+            // settings that are explicitly given below are decoyed
+            let mut fresh = Writer::builder();
+            if self.block_size.is_none() || self.interval.is_none() || self.levels.is_none() {
+                fresh.compression_type(*rng.pick(&codecs()));
+                fresh.compression_level(7);
+                if self.block_size.is_some() {
+                    fresh.block_size(16);
+                }
+                if self.interval.is_some() {
+                    fresh.index_key_interval(NonZeroUsize::new(5).unwrap());
+                }
+                if self.levels.is_some() {
+                    fresh.index_levels(4);
+                }
+                b = fresh;
+            }
         }
-        if let Some(i) = self.interval {
-            b.index_key_interval(NonZeroUsize::new(i).unwrap());
-        }
-        if let Some(l) = self.levels {
-            b.index_levels(l);
+        for st in steps {
+            match st {
+                0 => {
+                    b.compression_type(self.codec);
+                }
+                1 => {
+                    b.compression_level(self.level);
+                }
+                2 => {
+                    if let Some(bs) = self.block_size {
+                        b.block_size(bs);
+                    }
+                }
+                3 => {
+                    if let Some(i) = self.interval {
+                        b.index_key_interval(NonZeroUsize::new(i).unwrap());
+                    }
+                }
+                _ => {
+                    if let Some(l) = self.levels {
+                        b.index_levels(l);
+                    }
+                }
+            }
         }
         b
     }
@@ -532,5 +581,39 @@ pub fn structured_cases(thorough: bool) -> Vec<FileCase> {
         });
     }
     out.push(FileCase { label: "H/all-defaults".into(), cfg: WCfg::plain(), entries: k2_fixed(&mut rng, 5000, 4) });
+    // I. key and value lengths on either side of the length-framing boundaries
+    for &codec in &[CompressionType::None, CompressionType::Snappy, CompressionType::Zlib] {
+        let lens = [0usize, 1, 126, 127, 128, 129, 16382, 16383, 16384, 16385];
+        let mut e: Vec<Entry> = Vec::new();
+        for (i, &vl) in lens.iter().enumerate() {
+            e.push(((i as u32).to_be_bytes().to_vec(), rng.bytes(vl)));
+        }
+        for (i, &kl) in lens.iter().enumerate().skip(2) {
+            let mut k = vec![0xEEu8, i as u8];
+            while k.len() < kl {
+                k.push(rng.byte());
+            }
+            k.truncate(kl.max(2));
+            e.push((k, vec![i as u8; 3]));
+        }
+        e.sort();
+        e.dedup_by(|a, b| a.0 == b.0);
+        out.push(FileCase {
+            label: format!("I/framing-boundary-lengths/{}", codec_name(codec)),
+            cfg: WCfg { codec, level: 1, block_size: Some(4096), interval: Some(2), levels: Some(2) },
+            entries: e,
+        });
+    }
+    {
+        let mut e = k2_fixed(&mut rng, 6, 2);
+        e[2].1 = rng.bytes((1 << 21) - 1);
+        e[3].1 = rng.bytes(1 << 21);
+        e[4].1 = rng.bytes((1 << 21) + 1);
+        out.push(FileCase {
+            label: "I/framing-boundary-2^21-values".into(),
+            cfg: WCfg { codec: CompressionType::None, level: 0, block_size: Some(8192), interval: None, levels: Some(1) },
+            entries: e,
+        });
+    }
     out
 }
